@@ -14,3 +14,10 @@ pub use crate::generators::{BulletproofGens, BulletproofGensShare, PedersenGens}
 
 #[cfg(feature = "yoloproofs")]
 pub mod r1cs;
+
+/// Guarded re-exports for the external verification harness (feature `verif-hooks`).
+#[cfg(feature = "verif-hooks")]
+pub mod verif_hooks {
+    pub use crate::inner_product_proof::{inner_product, InnerProductProof};
+    pub use crate::util::exp_iter;
+}
